@@ -52,6 +52,8 @@ def resolve_alias(f: Func, e: ast.expr, depth: int = 0) -> ast.expr:
         v = asg[0].value
         if isinstance(v, (ast.Name, ast.Attribute)):
             return resolve_alias(f, v, depth + 1)
+        if isinstance(v, ast.Subscript) and isinstance(v.value, ast.Name) and isinstance(v.slice, (ast.Name, ast.Constant)):
+            return v
     return e
 
 
